@@ -1,6 +1,6 @@
 #!/bin/sh
 # usage: run_mutant.sh <patch.diff> <ID> [tier]   -- applies the patch to /repo, runs the check, reverts.
-patch="$1"; id="$2"; tier="${3:-quick}"
+patch="$(realpath "$1")"; id="$2"; tier="${3:-quick}"
 cd /repo || exit 2
 if ! git diff --quiet; then echo "/repo has uncommitted changes"; exit 2; fi
 git apply "$patch" || { echo "patch does not apply"; exit 2; }
